@@ -6,7 +6,7 @@ From Coq Require Import ZArith List Bool.
 From LV Require Import GainLoss.RoseTree GainLoss.Replay GainLoss.ReplayProofs GainLoss.ReplayPathProofs GainLoss.GetGls
   GainLoss.GetGlsProofs GainLoss.GetGlsTopProofs GainLoss.GetGLSr GainLoss.GetGLSrProofs GainLoss.TopDown
   GainLoss.TopDownProofs GainLoss.GetGlsDefinedProofs GainLoss.PhyBoGlue GainLoss.PhyBoGlueProofs
-  GainLoss.GetGlsNoDupProofs GainLoss.GainLossExec.
+  GainLoss.GetGlsNoDupProofs GainLoss.PhyBoRows GainLoss.PhyBoRowsProofs GainLoss.GainLossExec.
 Import ListNotations.
 Local Open Scope Z_scope.
 
@@ -94,6 +94,47 @@ Theorem C07_phybo_get_GLS_replays :
 Proof. exact phybo_replays. Qed.
 Print Assumptions C07_phybo_get_GLS_replays.
 
+(* ---- from the ROWS of the wordlist (deepening round) ----
+   The pattern of a cognate set is no longer an input of the statement: [paps_of_rows] models
+   Wordlist.get_paps as PhyBo calls it (ref = 'pap' = "<cogid>:<glid>", missing = -1) and
+   [phybo_of_rows] the whole pipeline rows -> pattern -> singleton shortcut / mode function.
+   For every wordlist (any rows: synonyms, several cognate ids per language and concept, cognate ids
+   used in several concepts), every reference tree whose tips are the languages, all three modes:
+   what PhyBo.get_GLS stores for the set (cog, con) replays to PRESENT at every language that has a
+   reflex of the set, to ABSENT at every language that has a word for the concept but none in the
+   set, and - when missing_data = 0 - to absent at every language without a word for the concept. *)
+Theorem C07_phybo_rows_replays :
+  forall (rows : list row) (taxa : list Z) (cog con : Z) (t : tree) (m : glmode) (gpl : Z) (push : bool)
+         (md : Z) (ev : list (Z * Z)),
+    NoDup (names t) -> NoDup taxa -> (forall x, In x taxa <-> In x (tips t)) -> (md = 0 \/ md = -1) ->
+    phybo_of_rows rows taxa cog con t m gpl push md = Ok ev ->
+    (forall n e, In (n, e) ev -> In n (names t) /\ (e = 1 \/ e = 0)) /\
+    forall x b, In (x, b) (replay false ev t) ->
+      (In (x, con, cog) rows -> b = true) /\
+      (~ In (x, con, cog) rows -> (exists c, In (x, con, c) rows) -> b = false) /\
+      ((forall c, ~ In (x, con, c) rows) -> md = 0 -> b = false).
+Proof. exact phybo_rows_replays. Qed.
+Print Assumptions C07_phybo_rows_replays.
+
+(* the coding itself, taxon by taxon: 1 = a reflex, 0 = a word for the concept but no reflex,
+   -1 = no word for the concept *)
+Theorem C07_paps_coding :
+  forall (rows : list row) (taxa : list Z) (cog con x : Z), In x taxa ->
+    exists s, lookup x (combine taxa (paps_of_rows rows taxa cog con)) = Some s /\
+      ((s = 1 /\ In (x, con, cog) rows) \/
+       (s = 0 /\ ~ In (x, con, cog) rows /\ exists c, In (x, con, c) rows) \/
+       (s = -1 /\ forall c, ~ In (x, con, c) rows)).
+Proof. exact paps_of_rows_spec. Qed.
+Print Assumptions C07_paps_coding.
+
+(* the per-run pattern hash of PhyBo.get_GLS is transparent: started empty (or with entries that
+   are results of f), the run gives every cognate set what f gives on its own pattern *)
+Theorem C07_pattern_hash_transparent :
+  forall (f : list Z -> result) (pats : list (list Z)) (h : list (list Z * result)),
+    (forall q r, In (q, r) h -> r = f q) -> run_cogs f h pats = map f pats.
+Proof. exact run_cogs_transparent. Qed.
+Print Assumptions C07_pattern_hash_transparent.
+
 (* what [replay] means, declaratively: leaf by leaf (root-to-leaf paths in tip order), the state is
    decided by the nearest node on the path, the leaf included, that carries an event - present if it
    is a gain, absent if it is a loss - and the leaf is absent if no node on its path carries one *)
@@ -152,3 +193,17 @@ Proof. vm_compute. split; reflexivity. Qed.
 Example ex_phybo_singleton :
   phybo_per_cog [(6, 0); (5, 0); (4, 0); (3, 1); (2, -1); (1, 0)] ex_tree (GTopDown 2) 1 true (-1) = Ok [(3, 1)].
 Proof. vm_compute. reflexivity. Qed.
+
+(* rows of a small wordlist on ex_tree: language 1 has two synonyms in set 7 of concept 0, language 3 one
+   reflex, language 2 a word of another set, languages 4,5 words of set 9, language 6 no word *)
+Definition ex_rows : list row :=
+  [(1, 0, 7); (1, 0, 7); (3, 0, 7); (2, 0, 8); (4, 0, 9); (5, 0, 9); (3, 1, 7)].
+Example ex_rows_pattern : paps_of_rows ex_rows [6; 5; 4; 3; 2; 1] 7 0 = [-1; 0; 0; 1; 0; 1].
+Proof. vm_compute. reflexivity. Qed.
+Example ex_rows_run :
+  phybo_of_rows ex_rows [6; 5; 4; 3; 2; 1] 7 0 ex_tree (GWeighted 1 1) 1 true 0 = Ok [(1, 1); (3, 1)]
+  /\ phybo_of_rows ex_rows [6; 5; 4; 3; 2; 1] 7 1 ex_tree (GTopDown 2) 1 true (-1) = Ok [(3, 1)]
+  /\ run_cogs (fun p => phybo_per_cog (combine [6; 5; 4; 3; 2; 1] p) ex_tree (GWeighted 1 1) 1 true 0) []
+        [[-1; 0; 0; 1; 0; 1]; [-1; 1; 1; 0; 0; 0]; [-1; 0; 0; 1; 0; 1]]
+      = [Ok [(1, 1); (3, 1)]; Ok [(3, 0); (9, 1)]; Ok [(1, 1); (3, 1)]].
+Proof. vm_compute. repeat split. Qed.
